@@ -80,4 +80,16 @@ CHECKS = {
         "text": "All streams of <= 4 packets over a 5-packet palette under all 8 option combinations must equal the concatenation of solo results; all interleavings of 2 (and 3) generators, including segment-combining ones and one over a scripted socket, must give each generator its sequential output; the definition and every module/class-level attribute of the package must be unchanged. Position vectors (states), next() calls (transitions) and interleavings (traces) are measured.",
         "note": "Interleaving is of next() calls in one thread (the library has no threads); the footprint monitor covers module- and class-level attributes of all loaded space_packet_parser modules.",
     },
+    "C09": {
+        "level": "exploration",
+        "technique": "bounded-exhaustive enumeration of definitions (attribute-coverage palette alone and in ordered pairs, container-tree family, bundled documents; built from XML and from objects) through write -> load, judged by an independent structural canonical form (probing callable adjustments) and by decode equivalence",
+        "text": "For every document of the family, built both ways, load(write(D)) must have the same canonical form as D, the XML-loaded and object-built definitions must agree, and every packet of the document's family must decode identically before and after the round trip.",
+        "note": "The canonical form is generic over public instance attributes; '' == None for descriptions/units; header meta data is not compared.",
+    },
+    "C15": {
+        "level": "model_checking",
+        "technique": "exhaustive exploration of the write/load operation sequence W, W, (L W)^3 for every document x namespace configuration x construction route, with byte-level comparison of the serializations reached and a cross-process (PYTHONHASHSEED) determinism comparison",
+        "text": "Every document/configuration is taken through G1=W(D), G1'=W(D), G2=W(L(G1)), G3, G4: G1 == G1', G2 == G3 == G4, G1 well-formed with every element in the XTCE namespace, canon(D) unchanged by writing; a sample is re-serialized in two subprocesses with different hash seeds. Distinct serializations (states), write/load steps (transitions) and completed cycles (traces) are measured.",
+        "note": "Fixed header date in every document; the stock lxml parser defines well-formedness.",
+    },
 }
